@@ -22,6 +22,7 @@ class Script:
         self.pos = 0
         self.points = []  # (chosen label, {label: weight}) per consumed choice point
         self.calls = 0
+        self.sample_ends = []
 
     def choose(self, labels, weights):
         self.calls += 1
@@ -77,7 +78,8 @@ class _Patch:
                 pass
 
             def next(self):
-                pass
+                # called once per finished sample: remember where the sample's choice points end
+                s.sample_ends.append(len(s.points))
 
             def finish(self):
                 pass
@@ -94,19 +96,66 @@ class _Patch:
         return False
 
 
-def run_schedule(program, depth, prefix):
+def run_schedule(program, depth, prefix, samples=1):
     """Run Polar's Simulator once under the given choice prefix.
-    -> (points, states) ; states = list of dict name->float at boundaries 0..depth"""
+    -> (points, states) ; states = list of dict name->float at boundaries 0..depth
+    With samples > 1: states is a list (one per sample) and a third value gives the end index of each sample's points."""
     from simulation import Simulator
 
     sc = Script(prefix)
     with _Patch(sc):
-        res = Simulator(depth).simulate(program, [], 1)
-    run = res.samples[0]
-    states = [{str(k): float(v) for k, v in st.items()} for st in run]
+        res = Simulator(depth).simulate(program, [], samples)
     if sc.pos < len(sc.prefix):
         raise ReplayDivergence("left-over choices in prefix")
-    return sc.points, states
+    if samples == 1:
+        run = res.samples[0]
+        states = [{str(k): float(v) for k, v in st.items()} for st in run]
+        return sc.points, states
+    allstates = [[{str(k): float(v) for k, v in st.items()} for st in run] for run in res.samples]
+    return sc.points, allstates, list(sc.sample_ends)
+
+
+def check_two_samples(text, depth, program, max_runs=400):
+    """Every resolution of the random choices of TWO consecutive samples in one simulate() call: each sample, taken alone,
+    must be a path of the model (same labels, same states) - a sample must not inherit anything from the previous one."""
+    prog = parse_program(text)
+    model = Model(prog, max_states=20000)
+    mdict = {}
+    for pa, pr, hist in model.paths(depth):
+        mdict[tuple(c[2] for c in pa)] = hist
+    mm = []
+    stack = [[]]
+    runs = 0
+    while stack and runs < max_runs:
+        prefix = stack.pop()
+        points, allstates, ends = run_schedule(program, depth, prefix, samples=2)
+        runs += 1
+        labels = [p[0] for p in points]
+        bounds = [0] + ends
+        for si in range(2):
+            seg = tuple(labels[bounds[si]:bounds[si + 1]]) if si + 1 < len(bounds) else None
+            if seg is None or seg not in mdict:
+                mm.append({"kind": "sample %d of 2 is not a path of the model" % (si + 1), "choices_of_sample": list(seg or []),
+                           "all_choices": labels})
+                break
+            hist = mdict[seg]
+            for n, (ms, ps) in enumerate(zip(hist, allstates[si])):
+                for v, val in ms.items():
+                    fv = float(val.const_value())
+                    if v not in ps or not math.isclose(ps[v], fv, rel_tol=1e-12, abs_tol=1e-12):
+                        mm.append({"kind": "state of sample %d" % (si + 1), "n": n, "var": v, "model": str(val), "polar": ps.get(v)})
+                        break
+                else:
+                    continue
+                break
+        if mm:
+            break
+        for i in range(len(prefix), len(points)):
+            lab, alts = points[i]
+            for alt in alts:
+                if alt != lab:
+                    stack.append(labels[:i] + [alt])
+    return mm, runs
 
 
 def explore_simulator(program, depth, max_paths=20000, twice=True):
